@@ -59,8 +59,6 @@ pub fn vx_panic<T>() -> (r: T)
 { unimplemented!() }
 macro_rules! panic { ($($t:tt)*) => { vx_panic() } }
 
-pub assume_specification<T> [bool::then_some::<T>] (b: bool, t: T) -> (r: Option<T>)
-    ensures r == (if b { Some(t) } else { None::<T> });
 // bool::then: vstd's specification
 
 pub mod ext {
@@ -91,6 +89,8 @@ pub open spec fn pred_step(r: Option<XResult<Val>>, i: XResult<Val>, f: Func) ->
         },
     }
 }
+
+// @@INCLUDE stdx@@
 
 // @@EXTRACTED@@
 
